@@ -34,6 +34,14 @@ fn main() {
     let cmd = args[1].as_str();
     let tier = arg_val(&args, "--tier").unwrap_or_else(|| "quick".into());
     let thorough = tier == "thorough";
+    if cmd == "c04-worker" {
+        c04::worker(args[2].parse().unwrap(), args[3].parse().unwrap(), args.get(4).map(|s| s == "thorough").unwrap_or(false));
+        return;
+    }
+    if cmd == "c04-one" {
+        c04::one(&args[2], &args[3]);
+        return;
+    }
     if cmd == "replay" {
         let path = &args[2];
         let txt = std::fs::read_to_string(path).expect("replay file");
